@@ -219,8 +219,8 @@ package types
 //@            exref(rb, Transaction, emitted(n0+1) == Rollback(rb) && fresh(rb) && rb.isRollback && rb.newIntents != nil &&
 //@               allstr(k, present(rb.newIntents, k) == present(old(t.transaction).oldIntents, k) &&
 //@                         (present(rb.newIntents, k) ==> rb.newIntents[k] == old(t.transaction).oldIntents[k])))
-//@   ensures slot_follows_rollback_result [C05 C06]: old(t.transaction) != nil && old(t.transaction).transactionId == id ==>
-//@            (result == nil ==> t.transaction == nil) && (result != nil ==> t.transaction == old(t.transaction))
+// the timer is stopped by then: whatever the rollback returns the slot is free, nothing else would release it
+//@   ensures slot_released_whatever_the_rollback_returns [C05 C06]: old(t.transaction) != nil && old(t.transaction).transactionId == id ==> t.transaction == nil
 
 //@ func (*TransactionManager).Rollback
 //@   props C05 C06
